@@ -472,7 +472,18 @@ def bound_heads(argtext):
     """type heads named on the left of `:` in the predicate strings of a serde(bound ...) attribute"""
     heads = []
     for s in re.findall(r'"([^"]*)"', argtext):
-        for pred in s.split(","):
+        preds, cur, depth = [], "", 0
+        for ch in s:
+            if ch in "<([":
+                depth += 1
+            elif ch in ">)]":
+                depth -= 1
+            if ch == "," and depth == 0:
+                preds.append(cur); cur = ""
+            else:
+                cur += ch
+        preds.append(cur)
+        for pred in preds:
             if ":" in pred:
                 lhs = pred.split(":")[0].strip()
                 m = re.match(r"[A-Za-z_]\w*", lhs)
